@@ -465,7 +465,21 @@ pub fn api_harness(spec: &RunSpec) -> RunOutput {
         dspec.plan = Some(dry);
         dspec.choices = None;
         dspec.tracing = false;
-        let out = api_harness(&dspec);
+        // On a thread of its own: the dry run must not consume this thread's hash keys, or the
+        // real run would differ from its later replay (which needs no dry run).
+        let out = match crate::runner::on_fresh_thread(spec.seed ^ 0x6472_79, move || api_harness(&dspec)) {
+            crate::runner::ThreadOutcome::Done(out) => out,
+            _ => {
+                return RunOutput {
+                    violations: vec![],
+                    harness_error: Some("the fault-free dry run did not finish".into()),
+                    stats: RunStats::default(),
+                    choices: vec![],
+                    trace: vec![],
+                    plan,
+                }
+            }
+        };
         if out.harness_error.is_some() {
             return out;
         }
@@ -1013,6 +1027,8 @@ pub fn api_harness(spec: &RunSpec) -> RunOutput {
             Prop::C15 => fault_applied,
             Prop::C19 => hit(&st, "discoverer-checked") || hit(&st, "lifetime-checked") || hit(&st, "object-found"),
             Prop::C05 => hit(&st, "channel-item-delivered"),
+            Prop::C04 => hit(&st, "event-round-checked") || hit(&st, "event-received"),
+            Prop::C10 => hit(&st, "listener-round-checked") || hit(&st, "bus-event-received"),
             _ => hit(&st, "call-value-checked") || hit(&st, "channel-item-delivered") || hit(&st, "event-received"),
         };
     // Operations performed by the (first) client's transport: the fault space of C15.
